@@ -18,6 +18,16 @@ CHECKS = {
               "nonces are captured at the AEAD constructor: pairwise distinct, = base xor seq, sealing refused at exhaustion."),
         note="Trusted: single-block ECB decryption (cross-checked against ref.ciphers per object), ref.ciphers ChaCha20. Limits >= 2^32 blocks (wide CTR counters, Salsa20, GCM) are not reachable with data; HPKE exhaustion by moving the Python sequence attribute.",
         ref="DESIGN.md §4 C11"),
+    "C12": dict(
+        technique="runtime monitor: reference-model oracle (independent RFC 8018/5869/7914/SP 800-108/RFC 5297/bcrypt models, cross-checked with hashlib, hmac and crypt) over parameter grids and random cases",
+        text=("Every KDF call is recorded at the API boundary and compared byte for byte with ref/kdf.py and, where one exists, a second stdlib oracle (hashlib.pbkdf2_hmac, "
+              "hashlib.scrypt, crypt.crypt $2a$, inline HKDF/SP 800-108 over hmac, inline S2V over the reference CMAC); oracle disagreement is inconclusive.  PBKDF2 is driven on "
+              "the C-assisted fast path (observed by hooking the assist, not assumed) and on the generic/prf= path for every hash, dkLen around 1..3 PRF blocks, counts up to 10000; "
+              "PBKDF1; HKDF up to exactly 255*HashLen with num_keys 1..5; scrypt N up to 4096 (16384 once) x r x p; bcrypt cost 4..8 around the 71/72-byte boundary with "
+              "bcrypt_check accepting iff the model recomputes the same 60 bytes over ~20 altered-hash variants; SP 800-108 with HMAC and CMAC PRFs; S2V with 0..127 components.  "
+              "Multi-key outputs must be consecutive slices of the single stream; the refusals named in the statement must raise and never return bytes."),
+        note="Trusted: ref/kdf.py, ref/hashes.py, ref/modes.py self-tests plus agreement with the stdlib oracles. Sizes up to a few KiB, scrypt N<=16384, bcrypt cost<=8.",
+        ref="DESIGN.md §4 C12"),
     "C14": dict(
         technique="runtime monitor: differential oracle (exact Python integers; primes certified by construction) over hostile operand workloads on the three integer back-ends",
         text=("Every operation of the Integer API is executed on IntegerGMP, IntegerCustom and IntegerNative with operands concentrated on limb "
